@@ -417,8 +417,8 @@ func runC13(c *seqCtx) {
 		}
 		if len(ops) > 0 && c.Mine() {
 			hs := opsString(ops)
-			for _, prefix := range []string{"", "p"} {
-				if prefix == "p" && (len(ops) > 3 || (len(ops) > 2 && !c.thorough)) {
+			for _, prefix := range []string{"", "ba"} {
+				if prefix == "ba" && (len(ops) > 3 || (len(ops) > 2 && !c.thorough)) {
 					continue // the store prefix is exercised up to length 2 (quick) / 3 (thorough)
 				}
 				in := prefix + "|" + hs
@@ -500,6 +500,7 @@ func runC13(c *seqCtx) {
 func c13Burst(db *badger.DB, emit func(prop, desc string)) string {
 	var got []string
 	var calls int
+	var hotOrder []string
 	overlap := false
 	r := scen.RunSeq(func() {
 		dbClear(db)
@@ -513,6 +514,11 @@ func c13Burst(db *badger.DB, emit func(prop, desc string)) string {
 			inCB++
 			if inCB > 1 {
 				overlap = true
+			}
+			if qc.ID() == "hot" {
+				if m, ok := qc.After().(map[string]interface{}); ok {
+					hotOrder = append(hotOrder, fmt.Sprint(m["k1"]))
+				}
 			}
 			calls++
 			if calls == 1 {
@@ -556,6 +562,9 @@ func c13Burst(db *badger.DB, emit func(prop, desc string)) string {
 	}
 	if !sameIDs(got, []string{"hot"}) {
 		emit("C13", fmt.Sprintf("burst of 258 mutations while the index worker is busy: query for prefix k returns %v, the stored values give [hot]", got))
+	}
+	if strings.Join(hotOrder, " ") != "k0 k1 k2 k3" {
+		emit("C14", fmt.Sprintf("burst: the query-change callbacks of id hot ran for the keys %v, the mutation order is [k0 k1 k2 k3]", hotOrder))
 	}
 	if calls != 258 {
 		emit("C14", fmt.Sprintf("burst: %d query-change callbacks for 258 key-changing mutations", calls))
